@@ -14,10 +14,13 @@ EXTENDS Naturals, FiniteSets, TLC, Json
 
 CONSTANTS MaxAdd, SnapshotExtraKept
 
-Features == {"targets-extra", "snapshot-extra", "timestamp-extra", "custom", "delegation"}
+\* "delegation": a delegated role d with its own signed file; "nested": d delegates to a second-level
+\* role e; "delegated-extra": unknown top-level members in d (and e)
+Features == {"targets-extra", "snapshot-extra", "timestamp-extra", "custom", "delegation", "nested", "delegated-extra"}
+Shape(S) == ("nested" \in S => "delegation" \in S) /\ ("delegated-extra" \in S => "delegation" \in S)
 VARIABLES has, nadd
 vars == <<has, nadd>>
-Init == has \in SUBSET Features /\ nadd \in 0..MaxAdd
+Init == has \in {S \in SUBSET Features : Shape(S)} /\ nadd \in 0..MaxAdd
 Next == UNCHANGED vars
 Spec == Init /\ [][Next]_vars
 
